@@ -512,8 +512,9 @@ func build(tier string) []*vkit.Scenario {
 					addPool(pcfg{n: n, q: q, custom: custom, kind: "bound", each: n + 1, panicAt: -1, rounds: 2}, P1-1)
 				}
 				// every completion order of a stream of parked tasks
-				if !custom || thorough {
+				if q <= 1 && (!custom || thorough) {
 					addPool(pcfg{n: n, q: q, custom: custom, kind: "drain", each: n + q + 4, panicAt: -1}, 0)
+					out[len(out)-1].Budget = 4 * time.Minute
 				}
 				// several submitters at once against a small queue: nobody but the pool's own threads
 				// may run a task
